@@ -10,7 +10,7 @@ Proof. induction p as [|a p IH]; simpl; auto. intro x. rewrite Z.eqb_refl. simpl
 Lemma return_var_name_is_return : forall n, is_return_var (return_var_name n) = true.
 Proof. intro n. unfold is_return_var, return_var_name. apply starts_with_app. Qed.
 
-Lemma return_vars_from_tys : forall tys i, map v_ty (return_vars_from i tys) = tys.
+Lemma return_vars_from_tys : forall tys i, map v_ty (return_vars_from i tys) = map fst tys.
 Proof. induction tys as [|t ts IH]; simpl; intro i; auto. f_equal. apply IH. Qed.
 
 Lemma patch_bb_in : forall c i b b', patch_bb c i b = Some b' ->
@@ -94,7 +94,7 @@ Qed.
 Lemma exit_row_functype_main : forall c c' inputs, (c_exit c < length (c_bbs c))%nat ->
   insert_return_vars c = Some c' ->
   map v_ty (b_in (get_bb c (c_exit c))) = map fst (filter snd inputs) ->
-  map v_ty (declared c' (c_exit c')) = functype_outputs (c_ret c) inputs.
+  map v_ty (declared c' (c_exit c')) = functype_outputs (map fst (c_ret c)) inputs.
 Proof.
   intros c c' inputs Hlt H Hin.
   destruct (insert_exit_row _ _ Hlt H) as [_ [_ Hrow]].
